@@ -19,7 +19,7 @@ class Prop(GraphProp):
     rule = ("(a) exhaustive part: for a fixed family of small worlds x schedules, every callback invocation (Hamiltonian "
             "term, Sylvester solver, multiplication) of every operation x {SimFault(Exception), RuntimeError, MemoryError, "
             "KeyboardInterrupt, SimBaseFault(BaseException), KeyError, StopIteration, ExoticRuntimeError (a RuntimeError subclass with a three-argument constructor), TypeError} is injected as a single fault, the schedule continues and finally every element is "
-            "re-requested; (b) seeded part: random worlds and schedules with 1-4 faults, transient or sticky (the same site "
+            "re-requested; (b) seeded part: random worlds and schedules with 1-4 faults, transient or sticky (5% of the runs: a storm of 12-70 consecutive failures of one site under retries; the same site "
             "fails again on retry), placed only where the clean run of the same schedule shows a callback invocation, incl. "
             "faults during block_diagonalize(...) itself, in a second computation sharing the input, in chained "
             "computations, in derived client products, in slices and views.  Oracle: the faulted request raises with the "
@@ -28,7 +28,7 @@ class Prop(GraphProp):
             "elements were in flight (nesting depth >= 2) and at least 3 value-returning requests followed; distinct = "
             "distinct sha256 of the event log")
     probes = ["fmt_implicit", "kpm_world", "fault_SimBaseFault", "fault_SystemExit", "fault_SimFault", "fault_RuntimeError", "fault_MemoryError", "fault_KeyboardInterrupt", "fault_site_H",
-              "fault_site_S", "fault_site_M", "fault_site_Hc", "fault_site_Mw", "fault_sticky_rehit", "fault_depth_ge2", "fault_in_build",
+              "fault_site_S", "fault_site_M", "fault_site_Hc", "fault_site_Mw", "fault_sticky_rehit", "fault_storm_run", "fault_depth_ge2", "fault_in_build",
               "recompute_after_eviction", "op_raised_by_fault", "final_checked", "multi_comp_world", "chain_world",
               "fault_in_array_op", "fault_in_view_op"]
     assumptions = ["faults are raised only from simulator-owned callbacks (the property speaks of user-supplied callbacks); "
@@ -58,15 +58,21 @@ class Prop(GraphProp):
                 k = r.randrange(ticks[op])
                 faults.append({"op": op, "k": k, "kind": r.choice(KINDS + ["SimFault"] + MORE_KINDS),
                                "persist": r.choice([1, 1, 1, 2, 3])})
+            storm = 0
+            if r.random() < 0.05:
+                # a storm: one site keeps failing while the caller retries the same request many times, then it recovers
+                # (anything a failure leaves behind that only adds up - counters, depth guards, grown tables - shows here)
+                storm = r.choice([12, 20, 40, 70])
+                faults = [{**faults[0], "persist": storm, "kind": r.choice(["RuntimeError", "RuntimeError", "ExoticRuntimeError", faults[0]["kind"]])}]
             # retry the faulted request right away in most runs
-            if r.random() < 0.7:
+            if storm or r.random() < 0.7:
                 fops = {f["op"] for f in faults}
                 new_ops, newpos = [], {}
                 for i, op in enumerate(ops):
                     newpos[i] = len(new_ops)
                     new_ops.append(op)
                     if i in fops and op[0] != "view":
-                        new_ops.append(list(op))
+                        new_ops.extend(list(op) for _ in range(storm + 1 if storm else 1))
                 ops = new_ops
                 faults = [{**f, "op": newpos[f["op"]]} for f in faults]
         return {"world": w, "ops": ops, "faults": faults}
@@ -75,6 +81,8 @@ class Prop(GraphProp):
         out = super().execute(case)
         c = out["counters"]
         # which kind of operation was hit (from the plan)
+        if any(f.get("persist", 1) >= 12 for f in case.get("faults", ())):
+            c["fault_storm_run"] = c.get("fault_storm_run", 0) + 1
         for f in case.get("faults", ()):
             if f["op"] < len(case["ops"]):
                 kind = case["ops"][f["op"]][0]
@@ -134,7 +142,7 @@ class Prop(GraphProp):
     def fixed_cases(self, tier, seed):
         from simkit import rng
 
-        cases = []
+        cases, storms = [], []
         for wi, w in enumerate(self.fixed_family(tier)):
             w = {**w, "cap": w.get("cap", 3 if w["npert"] == 1 else 2)}
             nsched = 2 if tier == "quick" else 4
@@ -159,6 +167,15 @@ class Prop(GraphProp):
                         for kind in KINDS:
                             cases.append((f"fixed-{wi}-{si}-{op}-{k}-{kind}",
                                           {"world": w, "ops": ops, "faults": [{"op": op, "k": k, "kind": kind, "persist": 1}]}))
+                if wi < 4 and si == 0 and any(n for _, n in ticks):
+                    # storms: the last callback of the busiest operation fails 100 times in a row while the caller retries, then recovers.
+                    # Listed first, so that they run in workers that have executed nothing else.
+                    op, n = max(ticks, key=lambda t: (t[1], -t[0]))
+                    if ops[op][0] != "view":
+                        sops = ops[: op + 1] + [list(ops[op]) for _ in range(100)] + ops[op + 1:]
+                        for kind in ("RuntimeError", "SimFault"):
+                            storms.append((f"storm-{wi}-{si}-{op}-{n - 1}-{kind}",
+                                           {"world": w, "ops": sops, "faults": [{"op": op, "k": n - 1, "kind": kind, "persist": 100}]}))
                 if tier == "thorough" and wi < 4 and si == 0:
                     # all pairs of single faults in different operations (second fault lands in the recovery path)
                     sites = [(op, k) for op, n in ticks for k in range(n)]
@@ -171,7 +188,7 @@ class Prop(GraphProp):
                                               {"world": w, "ops": ops, "faults": [
                                                   {"op": sites[a][0], "k": sites[a][1], "kind": kinds[0], "persist": 1},
                                                   {"op": sites[b][0], "k": sites[b][1], "kind": kinds[1], "persist": 1}]}))
-        return cases
+        return storms + cases
 
 
 PROP = Prop()
